@@ -115,6 +115,8 @@ impl Family for Handshakes {
 thread_local! {
     /// the callback that reported the error then returns Err itself ("the client was told; drop it")
     static THEN_FAIL: std::cell::Cell<bool> = std::cell::Cell::new(false);
+    /// (sequence id of the request that is answered with the error, rows written before a late error)
+    static ERR_AT: std::cell::Cell<(u8, usize)> = std::cell::Cell::new((0, 2));
 }
 
 fn run_site(ki: usize, site: usize, msg: Vec<u8>, hs: Option<u64>, st: &mut Stats) -> Result<(), Violation> {
@@ -126,6 +128,13 @@ fn run_site(ki: usize, site: usize, msg: Vec<u8>, hs: Option<u64>, st: &mut Stat
             col("b", ColumnType::MYSQL_TYPE_VAR_STRING, ColumnFlags::empty()),
         ]);
         let row = || WOp::WriteRow(vec![Val::I32(7), Val::Str("x".into())]);
+        let (req_seq, n_rows) = ERR_AT.with(|e| e.get());
+        let rows_then = |end: WOp| -> Vec<WOp> {
+            let mut p = vec![WOp::Start(c2.clone())];
+            p.extend((0..n_rows).map(|_| row()));
+            p.push(end);
+            p
+        };
         let (cmds, prog, behave_init, behave_prep): (Vec<ClientCmd>, Vec<WOp>, bool, bool) = match site {
             0 => (vec![ClientCmd::new(with_byte(COM_INIT_DB, b"db"))], vec![], true, false),
             1 => (vec![q(b"USE db")], vec![], true, false),
@@ -134,14 +143,15 @@ fn run_site(ki: usize, site: usize, msg: Vec<u8>, hs: Option<u64>, st: &mut Stat
             4 => (vec![q(b"x")], vec![WOp::CompleteOne(1, 1), WOp::Error(kind, msg.clone())], false, false),
             5 => (vec![q(b"x")], vec![WOp::Start(c2.clone()), row(), WOp::FinishOne, WOp::Error(kind, msg.clone())], false, false),
             6 => (vec![q(b"x")], vec![WOp::Start(c2.clone()), WOp::FinishError(kind, msg.clone())], false, false),
-            7 => (vec![q(b"x")], vec![WOp::Start(c2.clone()), row(), row(), WOp::FinishError(kind, msg.clone())], false, false),
+            7 => (vec![q(b"x")], rows_then(WOp::FinishError(kind, msg.clone())), false, false),
             8 => (vec![q(b"x")], vec![WOp::Start(c2.clone()), WOp::WriteCol(Val::I32(1)), WOp::WriteCol(Val::Null), WOp::FinishError(kind, msg.clone())], false, false),
             9 => (vec![ClientCmd::new(with_byte(COM_STMT_PREPARE, b"id=1 p=0")), ClientCmd::new(cmd_execute(1, 0, 1, &[]))], vec![WOp::Start(c2.clone()), WOp::FinishError(kind, msg.clone())], false, false),
-            10 => (vec![ClientCmd::new(with_byte(COM_STMT_PREPARE, b"id=1 p=0")), ClientCmd::new(cmd_execute(1, 0, 1, &[]))], vec![WOp::Start(c2.clone()), row(), WOp::FinishError(kind, msg.clone())], false, false),
+            10 => (vec![ClientCmd::new(with_byte(COM_STMT_PREPARE, b"id=1 p=0")), ClientCmd::new(cmd_execute(1, 0, 1, &[]))], if n_rows == 2 { vec![WOp::Start(c2.clone()), row(), WOp::FinishError(kind, msg.clone())] } else { rows_then(WOp::FinishError(kind, msg.clone())) }, false, false),
             11 => (vec![ClientCmd::new(with_byte(COM_STMT_PREPARE, b"id=1 p=0")), ClientCmd::new(cmd_execute(1, 0, 1, &[]))], vec![WOp::Start(c2.clone()), row(), WOp::FinishOne, WOp::Error(kind, msg.clone())], false, false),
             _ => (vec![q(b"SET NAMES latin1"), q(b"x")], vec![WOp::Error(kind, msg.clone())], false, false),
         };
         let mut cmds = cmds;
+        cmds.last_mut().unwrap().seq = req_seq;
         cmds.push(ping());
         let mut conv = Conv::new(cmds);
         let mut hs_what = "";
@@ -213,6 +223,57 @@ fn run_site(ki: usize, site: usize, msg: Vec<u8>, hs: Option<u64>, st: &mut Stat
             return Err(Violation::new("decoders-disagree", format!("{} / {}: mysql_common reads ({}, {:?}, {} bytes)", name, SITES[site], c2_, s2, m2_.len())));
         }
         Ok(())
+    }
+}
+
+/// the ERR packet at every sequence id: the request that is refused carries each id 0..255 (so the
+/// ERR carries each id, the wrap included), at the sites that answer at once, after a chained
+/// result and after rows; and late errors behind every row count around 250, 506 and 762 (the ERR
+/// is then the 255th, 256th, 257th, 511th... packet of its reply)
+struct AtEverySequenceId {
+    kinds: Vec<usize>,
+    msgs: Vec<Vec<u8>>,
+    rows: Vec<usize>,
+}
+const ID_SITES: [usize; 6] = [0, 2, 3, 4, 7, 10];
+impl AtEverySequenceId {
+    fn new(quick: bool) -> Self {
+        let mut rows = Vec::new();
+        for c in [250usize, 506, 762] {
+            rows.extend(c - 6..=c + 6);
+        }
+        AtEverySequenceId { kinds: (0..KINDS.len()).step_by(if quick { 401 } else { 97 }).collect(), msgs: vec![b"denied".to_vec(), vec![]], rows }
+    }
+    fn case(&self, idx: u64) -> (usize, usize, usize, u8, usize) {
+        let a = (256 * ID_SITES.len() * self.kinds.len() * self.msgs.len()) as u64;
+        if idx < a {
+            let d = digits(idx, &[256, ID_SITES.len() as u64, self.kinds.len() as u64, self.msgs.len() as u64]);
+            (self.kinds[d[2] as usize], ID_SITES[d[1] as usize], d[3] as usize, d[0] as u8, 2)
+        } else {
+            let d = digits(idx - a, &[self.rows.len() as u64, 2, 3]);
+            (self.kinds[0], if d[1] == 0 { 7 } else { 10 }, 0, [0u8, 1, 200][d[2] as usize], self.rows[d[0] as usize])
+        }
+    }
+}
+impl Family for AtEverySequenceId {
+    fn name(&self) -> String {
+        "error-packets-at-every-sequence-id".into()
+    }
+    fn len(&self) -> u64 {
+        (256 * ID_SITES.len() * self.kinds.len() * self.msgs.len() + self.rows.len() * 6) as u64
+    }
+    fn run(&self, idx: u64, st: &mut Stats) -> Result<(), Violation> {
+        let (ki, site, mi, seq, rows) = self.case(idx);
+        st.nontrivial += 1;
+        st.bump("errors_at_other_sequence_ids");
+        ERR_AT.with(|e| e.set((seq, rows)));
+        let r = run_site(ki, site, self.msgs[mi].clone(), None, st);
+        ERR_AT.with(|e| e.set((0, 2)));
+        r.map_err(|v| Violation::new(&v.key, format!("request sequence id {}, {} rows before a late error: {}", seq, rows, v.msg)))
+    }
+    fn describe(&self, idx: u64) -> J {
+        let (ki, site, mi, seq, rows) = self.case(idx);
+        json!({"kind": KINDS[ki].0, "site": SITES[site], "message_len": self.msgs[mi].len(), "request_sequence_id": seq, "rows_before_a_late_error": rows})
     }
 }
 
@@ -339,6 +400,7 @@ pub fn build(quick: bool) -> Check {
             Box::new(Sites { msgs }),
             Box::new(Handshakes { kinds: (0..KINDS.len()).step_by(if quick { 97 } else { 1 }).collect(), msgs: vec![vec![], b"denied #1".to_vec(), "caf\u{e9} \u{fc}ber".as_bytes().to_vec(), vec![b'm'; 600], (0..5000).map(|i| b'A' + (i % 26) as u8).collect(), vec![b'z'; 70_000]] }),
             Box::new(ReportedThenFailed { kinds: (0..KINDS.len()).step_by(if quick { 53 } else { 7 }).collect(), msgs: vec![vec![], b"denied".to_vec(), vec![b'm'; 600], vec![b'L'; 70_000]] }),
+            Box::new(AtEverySequenceId::new(quick)),
             Box::new(Tables),
             Box::new(super::aftermath::Aftermath { prop: "C13" }),
         ],
